@@ -59,6 +59,8 @@ class C19(PropCheck):
             out.append({"k": "tree", "seed": rng.randrange(1 << 30), "depth": rng.randint(1, dmax), "width": rng.randint(1, dmax)})
         # runs of identical entries (deep recursion through one line): the flat format is the *standard* rendering of the whole
         # summary, which collapses them ("[Previous line repeated N more times]")
+        for i, c in enumerate(list(out[:30 if tier == "quick" else 300])):
+            out.append(dict(c, tblimit=[0, 1, 2, -1][i % 4]))
         for rep in (3, 4, 5, 9):
             for seed in (1, 2, 3):
                 out.append({"k": "tree", "seed": seed * 1000 + rep, "depth": 1, "width": 2, "repeat": rep})
@@ -222,7 +224,16 @@ _orig = C19.run_real
 def _run(self, case):
     if not hasattr(self, "_oracles"):
         self._oracles = {}
-    r = _orig(self, case)
+    import sys
+    if "tblimit" in case:
+        # a process-wide setting for how tracebacks are *printed* (traceback.print_*/extract_* honour it); a summary built from a
+        # Stack is not one of those
+        sys.tracebacklimit = case["tblimit"]
+    try:
+        r = _orig(self, case)
+    finally:
+        if "tblimit" in case:
+            del sys.tracebacklimit
     self._oracles[id(case)] = "; ".join(self._probs[:3])[:900] if self._probs else None
     return r
 
